@@ -72,7 +72,7 @@ func addVal(cls string, sql string, extreme bool, mk func() value.Primary) int {
 }
 
 func addStr(cls, s string) int {
-	return addVal(cls, sqlString(s), len(s) > 1000, func() value.Primary { return value.NewString(s) })
+	return addVal(cls, sqlString(s), len(s) > 1000 || reHugeInt.MatchString(s), func() value.Primary { return value.NewString(s) })
 }
 
 func sqlInt(i int64) string {
@@ -111,6 +111,12 @@ var fmtStrings = func() []string {
 			out = append(out, "%"+m+string(v))
 		}
 	}
+	// widths and precisions of 10+ digits in every placeholder: the formatter must refuse them, not allocate them
+	for _, v := range "dfesqxbo" {
+		for _, m := range []string{"99999999999", "9999999999999999999", ".99999999999", ".9999999999999999999", "099999999999", "-99999999999"} {
+			out = append(out, "%"+m+string(v))
+		}
+	}
 	return append(out, "%-5s", "%05d", "%+d", "%#x", "% d", "%*d", "%.*f", "%[2]d", "%!", "abc%", "%%", "%5", "%.", "%-", "%5.2f%s", "%s %s", "%99999999999s", "%.99999999999f",
 		"%Y-%m-%d %H:%i:%s.%n %Z", "%a %b %e %h %p %v %y %c %E %F %f %g %j %k %l %M %N %u %z", "%Y%", "%10Y")
 }()
@@ -120,7 +126,7 @@ var jsonTexts = []string{`{"a":1}`, `[1,2,3]`, `{"a":[{"b":1},{"b":2}]}`, `{"a":
 var ipJSONQueries = []string{"a.b", "a.b.c", "a[0]", "a[1].b", "a[]", "a[].b", "a{b}", "a{b as x}", "a[", "a[0", "a{", "a{b", "..", "a.", ".a", `a."`, `a.'`, "a.`", "'a", `"a"`, "'a'.b", `a\.b`,
 	"[0]", "a[-1]", "a[99999999999999999999]", "a[0][0]", "a{b,}", "a[].b{c}", "a.b[", `a["`}
 
-var regexps = []string{"(?", "(a)(b)", "[a-", ".*", "(?P<n>a)", "a{2,1}", `\p{Foo}`, "a|", "^$", "(?i)A", "a{1001}", "(((a)))"}
+var regexps = []string{"(?", "(a)(b)", "[a-", ".*", "(?P<n>a)", "a{2,1}", `\p{Foo}`, "a|", "^$", "(?i)A", "a{1001}", "(((a)))", "(a*)*b", "(a|aa)+$", "^(a+)+$", "(.*a){12}b", "%a%a%a%a%a%a%a%a%a%a%a%a%b"}
 
 var words = []string{"UTF8", "UTF16", "SJIS", "AUTO", "XXX", "LEN", "BYTE", "WIDTH", "Local", "UTC", "Asia/Tokyo", "No/Where", "L", "R", "CSV", "JSON", "LF", "BACKSLASH", "HEXALL", "year", "true"}
 
@@ -164,7 +170,7 @@ func initPools() {
 		t := t
 		mark(addVal("datetime", "DATETIME('"+t.Format(time.RFC3339Nano)+"')", false, func() value.Primary { return value.NewDatetime(t) }), k == 0)
 	}
-	for _, s := range []string{"", " ", "a", "abc", "日本語", "é", "-1", "1.5", "NaN", "2012-02-03", strings.Repeat("a", 5000)} {
+	for _, s := range []string{"", " ", "a", "abc", "日本語", "é", "-1", "1.5", "NaN", "2012-02-03", strings.Repeat("a", 40), strings.Repeat("a", 5000)} {
 		mark(addStr("string", s), s == "" || s == "abc" || s == "日本語")
 	}
 	for _, c := range alphabet {
@@ -753,7 +759,10 @@ func runInproc(seed int64, workers int, phase int) *inprocResult {
 				case hung:
 					res.cands = append(res.cands, candidate{t, args, "hang", "no progress for 6 s", ""})
 				case strings.Contains(stderr, "out of memory") || strings.Contains(stderr, "cannot allocate memory"):
+					// confirmed on the binary like every candidate: there the oracle decides whether the command names
+					// a large quantity (observation) or not (memory:unbounded_growth)
 					res.oom++
+					res.cands = append(res.cands, candidate{t, args, "oom", "out of memory under the harness limit", ""})
 				default:
 					res.cands = append(res.cands, candidate{t, args, "died", trunc(stderr, 300), ""})
 				}
@@ -772,9 +781,9 @@ func runInproc(seed int64, workers int, phase int) *inprocResult {
 				restartsOf[t.Name]++
 				todo = append([]task{}, todo[ti:]...)
 				todo[0].From = k + 1
-				if restartsOf[t.Name] > 40 {
+				if restartsOf[t.Name] > 150 {
 					mu.Lock()
-					res.abandoned = append(res.abandoned, t.Name+" (more than 40 restarts)")
+					res.abandoned = append(res.abandoned, t.Name+" (more than 150 restarts)")
 					mu.Unlock()
 					todo = todo[1:]
 				}
@@ -828,7 +837,7 @@ func (r *inprocResult) confirmJobs() []*job {
 			}
 			seenFn[c.t.Name]++
 			n++
-			j := &job{Group: "inproc", Tags: []string{"inproc_candidate:" + key, "fn:" + c.t.Name}, Files: nil, Stmts: []string{callSQL(c.t, c.args)}}
+			j := &job{Group: "inproc", Tags: []string{"fn:" + c.t.Name, "inproc_candidate:" + key}, Files: nil, Stmts: []string{callSQL(c.t, c.args)}}
 			if c.t.Kind == "scalar" {
 				parts := make([]string, len(c.args))
 				for i, a := range c.args {
